@@ -221,12 +221,13 @@ pub fn gen_templates(rng: &mut Rng) -> (Vec<String>, Vec<(String, String)>) {
     let nu = 1 + rng.below(4);
     let mut u = vec![];
     for i in 0..nu {
-        u.push(match rng.below(6) {
+        u.push(match rng.below(7) {
             0 => format!("U{i}:%F[0]"),
             1 => format!("U{i}:%F[0],%F[1]"),
             2 => format!("U{i}:%F[0],%F?[2]"),
             3 => format!("U{i}:%t"),
             4 => format!("U{i}:%F[1],%t,%F?[3]"),
+            5 => format!("U{i}:%F?[1],%F?[2]"),
             _ => format!("U{i}:%F[{}]", rng.below(6)),
         });
     }
@@ -234,12 +235,14 @@ pub fn gen_templates(rng: &mut Rng) -> (Vec<String>, Vec<(String, String)>) {
     let mut b = vec![];
     for i in 0..nb {
         let mk = |rng: &mut Rng, s: char| -> String {
-            match rng.below(6) {
+            match rng.below(8) {
                 0 => format!("B{i}:%{s}[0]"),
                 1 => format!("B{i}:%{s}[0],%{s}[1]"),
                 2 => format!("B{i}:%{s}?[2]"),
                 3 => format!("B{i}:%{s}[1],%{s}?[2]"),
                 4 => format!("B{i}:%{s}[{}]", rng.below(6)),
+                5 => format!("B{i}:%{s}?[1],%{s}?[2]"),
+                6 => format!("B{i}:%{s}?[0],%{s}[1],%{s}?[3]"),
                 _ => format!("B{i}:%{s}[1]"),
             }
         };
@@ -450,6 +453,12 @@ pub fn c14_case(ctx: &mut Ctx, rng: &mut Rng) {
     ctx.bucket("training_succeeded");
     let user_csv = if bundled { std::fs::read_to_string("/repo/vibrato/src/tests/resources/user.csv").unwrap_or_default() } else { ts.user_csv() };
     let with_user = !user_csv.is_empty();
+    if with_user && rng.chance(0.4) {
+        // an export before the user lexicon is registered must not leak into the later export
+        if generate(&mut model).is_ok() {
+            ctx.bucket("exported_once_before_user_lexicon");
+        }
+    }
     if with_user {
         if let Err(e) = guarded(|| model.read_user_lexicon(user_csv.as_bytes()).map_err(|e| e.to_string())).and_then(|r| r) {
             ctx.violation("read_user_lexicon_failed", "C14:read_user_lexicon_failed", e, desc.clone());
@@ -1221,6 +1230,28 @@ fn c18_dictionary(ctx: &mut Ctx, rng: &mut Rng) {
         }
     };
     ctx.bucket("training_succeeded");
+    // half of the cases: the model goes through write_model/read_model first (as `dictgen` does),
+    // and a user lexicon with new feature strings is registered afterwards
+    let reload = rng.chance(0.5);
+    if reload {
+        let mut bytes = vec![];
+        let r = guarded(|| m.write_model(&mut bytes).map_err(|e| e.to_string())).and_then(|r| r).and_then(|_| guarded(|| Model::read_model(bytes.as_slice()).map_err(|e| e.to_string())).and_then(|r| r));
+        match r {
+            Ok(m2) => m = m2,
+            Err(e) => {
+                ctx.note(format!("model round trip failed (C15's business): {e}"));
+                return;
+            }
+        }
+        ctx.bucket("model_reloaded_before_generation");
+    }
+    let user_csv = ts.user_csv();
+    if !user_csv.is_empty() {
+        if let Err(e) = guarded(|| m.read_user_lexicon(user_csv.as_bytes()).map_err(|e| e.to_string())).and_then(|r| r) {
+            ctx.note(format!("read_user_lexicon failed: {e}"));
+            return;
+        }
+    }
     let f = match generate(&mut m) {
         Ok(f) => f,
         Err(e) => {
@@ -1257,17 +1288,31 @@ fn c18_dictionary(ctx: &mut Ctx, rng: &mut Rng) {
         ctx.note("row count mismatch (C14's business)".into());
         return;
     }
+    let n_class_words = words.len();
+    // user rows given as 0,0,0 carry model classes too: the listing clause applies to them
+    let user_txt = String::from_utf8_lossy(&f.user).to_string();
+    for (i, line) in user_txt.lines().enumerate() {
+        if let (Some((fl, _)), Some(u)) = (split4(line), ts.user.get(i)) {
+            if u.1 == 0 && u.2 == 0 && u.3 == 0 {
+                words.push((format!("user row {i} {:?}", u.0), u.4.clone(), fl[1].parse().unwrap_or(0), fl[2].parse().unwrap_or(0)));
+                ctx.bucket("user_word_with_trained_ids_checked");
+            }
+        }
+    }
     ctx.eval();
     // %R tuple (right rewriter) <-> left id ; %L tuple (left rewriter) <-> right id
     let mut by_tuple_l: BTreeMap<Vec<Option<String>>, u32> = BTreeMap::new();
     let mut by_tuple_r: BTreeMap<Vec<Option<String>>, u32> = BTreeMap::new();
-    for (name, cells, lid, rid) in &words {
+    for (wi, (name, cells, lid, rid)) in words.iter().enumerate() {
+        let class_word = wi < n_class_words;
         let rf = ref_rewrite(&ts.rules[2], cells).unwrap_or_else(|| cells.clone());
         let lf = ref_rewrite(&ts.rules[1], cells).unwrap_or_else(|| cells.clone());
         let rt: Vec<Option<String>> = ts.bigram_t.iter().map(|t| ref_expand(&t.1, 'R', &rf, 0)).collect();
         let lt: Vec<Option<String>> = ts.bigram_t.iter().map(|t| ref_expand(&t.0, 'L', &lf, 0)).collect();
         for (side, tuple, id, rows, map) in [("left", &rt, *lid, &left_rows, &mut by_tuple_l), ("right", &lt, *rid, &right_rows, &mut by_tuple_r)] {
-            if let Some(prev) = map.get(tuple) {
+            if !class_word {
+                // user words: listing clause only
+            } else if let Some(prev) = map.get(tuple) {
                 if *prev != id {
                     ctx.violation("equal_tuples_different_connection_ids", "C18:equal_tuples_different_connection_ids", format!("{name}: its {} bigram tuple {:?} equals that of a word with {side} id {prev}, but it has {side} id {id}", if side == "left" { "%R" } else { "%L" }, tuple), cj(String::new()));
                     return;
